@@ -240,9 +240,10 @@ def consensus(
     # Variants that are already phased in the input but received no votes keep their phase.
     # (The writer removes existing phase information from all calls it processes.)
     for pos, phase in phased.items():
-        if phase is None or pos in votes or phase.block_id is None or len(phase.phase) != 2:
+        if phase is None or pos in votes or len(phase.phase) != 2:
             continue
-        components[pos] = phase.block_id - 1
+        # a call phased without a phase-set value ("1|0" with PS ".") belongs to the unnamed set 0
+        components[pos] = (phase.block_id if phase.block_id is not None else 0) - 1
         super_reads[0].append(Variant(pos, allele=phase.phase[0], quality=0))
         super_reads[1].append(Variant(pos, allele=phase.phase[1], quality=0))
     for read in super_reads:
